@@ -400,6 +400,15 @@ func checkC01(c *ev.Ctx) {
 			}
 		}
 	}
+	// every registered key type against every agent behaviour (the quick product above uses Ed25519 keys only)
+	for _, rt := range []string{"rsa", "ecdsa"} {
+		for _, ag := range []string{"honest-with-key", "honest-without", "sign-other-key", "sign-other-data", "garbage", "empty", "failure", "close"} {
+			for _, kd := range []string{"pub", "bare"} {
+				c01Single(c, c01Case{Kind: "single", LogName: "alice", Policy: "NONS", KeyDir: kd, Agent: ag, RegType: rt})
+				n++
+			}
+		}
+	}
 	// login names in several cases, with only near-miss file names present in the key directory (the keys of OTHER users)
 	for _, ln := range []string{"Alice", "alice", "ALICE", "bob.smith", "Ünï"} {
 		for _, ag := range []string{"honest-with-key", "sign-other-key", "failure"} {
